@@ -1,4 +1,3 @@
-(* WIP *)
 (* C14-C16 — the structural invariant of the life-cycle model and its preservation by every
    operation: the Clients map points to existing, not taken-over objects carrying the key as
    identifier; an open object is registered and its handler is reading; a handler that waits for
